@@ -3,6 +3,7 @@ package main
 import (
 	"fmt"
 	"os"
+	"time"
 	"go/constant"
 	"go/token"
 	"go/types"
@@ -39,6 +40,7 @@ type Engine struct {
 	notes     []string
 	ent       *entSchema
 	unitAssume map[string]map[string]bool
+	unitBudget time.Duration
 }
 
 // Unit is one function under contract being verified.
@@ -54,6 +56,7 @@ type Unit struct {
 	callOrd  map[ssa.Instruction]string
 	siteOrd  map[ssa.Instruction]string
 	truncated bool
+	deadline  time.Time
 }
 
 type loopInfo struct {
@@ -200,6 +203,7 @@ func (e *Engine) verifyUnit(u *Unit) {
 		}
 	}()
 	fn := u.fn
+	u.deadline = time.Now().Add(e.unitBudget)
 	u.loops = findLoops(fn)
 	u.loopOf = map[*ssa.BasicBlock]*loopInfo{}
 	for _, l := range u.loops {
@@ -252,6 +256,10 @@ func (e *Engine) verifyUnit(u *Unit) {
 	}
 	// vacuity probe: requires must be satisfiable
 	e.addObligation(st, u, "cover", "requires-satisfiable", "entry", TFalse, u.c.Props, "requires", true)
+	if u.c.NoPanic {
+		// a unit without any panic site still counts as analysed
+		e.addObligation(st, u, "nopanic", "analysed", "entry", TTrue, u.c.Props, "the unit was explored for panic sites", false)
+	}
 	fr.ret = func(st *State, results []SVal) {
 		st.checkEnsures(fr, results)
 	}
@@ -841,6 +849,9 @@ func (st *State) havocLoop(fr *Frame, li *loopInfo) {
 	} else {
 		pats, all = st.e.modSetBlocks(st, li.fn, li.body, 0, map[*ssa.Function]bool{})
 	}
+	if os.Getenv("GOVC_DEBUG") != "" {
+		fmt.Fprintf(os.Stderr, "LOOP-HAVOC %s loop %d: all=%v %v\n", st.u.name, li.ordinal, all, pats)
+	}
 	if all {
 		st.havoc(nil, nil)
 	} else if len(pats) > 0 {
@@ -853,6 +864,9 @@ func (st *State) execInstrs(fr *Frame, b *ssa.BasicBlock, i int) {
 		st.steps++
 		if st.steps > maxSteps {
 			st.unsupported("step limit exceeded")
+		}
+		if st.steps%512 == 0 && !st.u.deadline.IsZero() && time.Now().After(st.u.deadline) {
+			st.unsupported("verification-condition generation for this unit exceeded its time budget (too many paths): add contracts for callees or split the function")
 		}
 		if st.u.paths > st.e.maxPaths {
 			st.u.truncated = true
@@ -869,6 +883,9 @@ func (st *State) execInstrs(fr *Frame, b *ssa.BasicBlock, i int) {
 			}
 			if isFalse(c) {
 				st.execBlock(fr, b.Succs[1], b)
+				return
+			}
+			if st.tryMergeDiamond(fr, b, c) {
 				return
 			}
 			st2 := st.clone()
@@ -931,6 +948,152 @@ func (st *State) execInstrs(fr *Frame, b *ssa.BasicBlock, i int) {
 	}
 }
 
+// tryMergeDiamond executes "if c { simple block }" (or a two-armed diamond of simple blocks) without
+// forking the path: the arm's instructions are run under guard c, stores become conditional stores and the
+// phis of the join block select by c. An arm is simple when it contains only loads, stores, field
+// addresses of known non-nil bases, arithmetic and conversions and jumps straight to the join block.
+func (st *State) tryMergeDiamond(fr *Frame, b *ssa.BasicBlock, c *Term) bool {
+	t, f := b.Succs[0], b.Succs[1]
+	var join *ssa.BasicBlock
+	var arms []*ssa.BasicBlock // arms[0] executed when c, arms[1] when !c (nil = empty arm)
+	simpleArm := func(x, j *ssa.BasicBlock) bool {
+		return len(x.Preds) == 1 && len(x.Succs) == 1 && x.Succs[0] == j && st.loopAt(fr, x) == nil
+	}
+	switch {
+	case simpleArm(t, f) && st.loopAt(fr, f) == nil:
+		join, arms = f, []*ssa.BasicBlock{t, nil}
+	case simpleArm(f, t) && st.loopAt(fr, t) == nil:
+		join, arms = t, []*ssa.BasicBlock{nil, f}
+	case len(t.Succs) == 1 && len(f.Succs) == 1 && t.Succs[0] == f.Succs[0] && simpleArm(t, t.Succs[0]) && simpleArm(f, t.Succs[0]) && st.loopAt(fr, t.Succs[0]) == nil:
+		join, arms = t.Succs[0], []*ssa.BasicBlock{t, f}
+	default:
+		return false
+	}
+	if len(join.Preds) != 2 {
+		return false
+	}
+	for _, a := range arms {
+		if a != nil && !st.armIsSimple(fr, a) {
+			return false
+		}
+	}
+	// run the arms under their guards
+	guards := []*Term{c, Not(c)}
+	for i, a := range arms {
+		if a == nil {
+			continue
+		}
+		st.bindPhis(fr, a, b)
+		for _, in := range a.Instrs {
+			switch x := in.(type) {
+			case *ssa.Jump, *ssa.DebugRef:
+				if d, ok := in.(*ssa.DebugRef); ok {
+					st.execSimple(fr, d)
+				}
+			case *ssa.Store:
+				pt := x.Addr.Type().Underlying().(*types.Pointer).Elem()
+				addr := st.ptrAddr(st.val(fr, x.Addr), pt)
+				cur := st.load(st.heap, addr)
+				st.store(addr, st.iteVal(guards[i], st.val(fr, x.Val), cur, pt))
+			default:
+				st.execSimple(fr, in)
+			}
+		}
+	}
+	// phis of the join block
+	var phis []*ssa.Phi
+	var vals []SVal
+	for _, in := range join.Instrs {
+		p, ok := in.(*ssa.Phi)
+		if !ok {
+			break
+		}
+		var vt, vf SVal
+		for pi, pred := range join.Preds {
+			var fromTrue bool
+			switch {
+			case arms[0] != nil && pred == arms[0]:
+				fromTrue = true
+			case arms[1] != nil && pred == arms[1]:
+				fromTrue = false
+			case pred == b:
+				fromTrue = arms[0] == nil
+			default:
+				return false
+			}
+			if fromTrue {
+				vt = st.val(fr, p.Edges[pi])
+			} else {
+				vf = st.val(fr, p.Edges[pi])
+			}
+		}
+		phis = append(phis, p)
+		vals = append(vals, st.iteVal(c, vt, vf, p.Type()))
+	}
+	for i, p := range phis {
+		fr.vals[p] = vals[i]
+	}
+	st.tr("b%d:M", b.Index)
+	st.execInstrs(fr, join, firstNonPhi(join))
+	return true
+}
+
+func (st *State) armIsSimple(fr *Frame, a *ssa.BasicBlock) bool {
+	known := map[ssa.Value]bool{}
+	nonNil := func(v ssa.Value) bool {
+		if known[v] {
+			return true
+		}
+		sv, ok := fr.vals[v]
+		if !ok {
+			return false
+		}
+		switch x := sv.(type) {
+		case *AddrV:
+			return true
+		case *Term:
+			return st.freshRefs[x.S] || st.nonzero[x.S]
+		}
+		return false
+	}
+	for _, in := range a.Instrs {
+		switch x := in.(type) {
+		case *ssa.Jump, *ssa.DebugRef, *ssa.Phi:
+		case *ssa.FieldAddr:
+			if !nonNil(x.X) {
+				return false
+			}
+			known[x] = true
+		case *ssa.Store:
+			if !nonNil(x.Addr) {
+				return false
+			}
+			if _, isStruct := x.Val.Type().Underlying().(*types.Struct); isStruct && !isOpaque(x.Val.Type()) {
+				return false
+			}
+		case *ssa.UnOp:
+			if x.Op == token.MUL {
+				if !nonNil(x.X) {
+					return false
+				}
+				if _, isStruct := x.Type().Underlying().(*types.Struct); isStruct && !isOpaque(x.Type()) {
+					return false
+				}
+			} else if x.Op == token.ARROW {
+				return false
+			}
+		case *ssa.BinOp:
+			if x.Op == token.QUO || x.Op == token.REM {
+				return false
+			}
+		case *ssa.Convert, *ssa.ChangeType, *ssa.Field, *ssa.Extract:
+		default:
+			return false
+		}
+	}
+	return true
+}
+
 // foldKnown decides branch conditions of the form x == 0 / x != 0 for values known to be non-zero on
 // this path (freshly produced errors, allocated references): infeasible continuations are not explored.
 func (st *State) foldKnown(c *Term) *Term {
@@ -953,6 +1116,19 @@ func (st *State) foldKnown(c *Term) *Term {
 // program does NOT panic (TFalse for an explicit panic instruction).
 func (st *State) panicAt(fr *Frame, in ssa.Instruction, what string, ok *Term) {
 	u := st.u
+	ok = st.foldKnown(ok)
+	if isTrue(ok) {
+		return
+	}
+	defer func() {
+		// once checked (or assumed) on this path, the same pointer need not be checked again
+		if strings.HasPrefix(ok.S, "(not (= ") && strings.HasSuffix(ok.S, " 0))") {
+			if st.nonzero == nil {
+				st.nonzero = map[string]bool{}
+			}
+			st.nonzero[ok.S[8:len(ok.S)-4]] = true
+		}
+	}()
 	if u.c.NoPanic {
 		site := st.siteName(fr, in, what)
 		st.e.addObligation(st, u, "nopanic", what, site, ok, u.c.Props, what, false)
@@ -1073,7 +1249,7 @@ func (e *Engine) modSetBlocks(st *State, fn *ssa.Function, blocks map[*ssa.Basic
 					}
 				}
 				if callee == nil {
-					if c.IsInvoke() && e.isSkippedIface(c) {
+					if c.IsInvoke() && (e.isSkippedIface(c) || pureExternal("invoke "+typeKey(c.Value.Type())+"."+c.Method.Name())) {
 						continue
 					}
 					if ct := e.dynContract(c); ct != nil {
@@ -1096,6 +1272,10 @@ func (e *Engine) modSetBlocks(st *State, fn *ssa.Function, blocks map[*ssa.Basic
 					pats = append(pats, ct.Modifies...)
 					continue
 				}
+				if m, ok := e.entModset(callee); ok {
+					pats = append(pats, m...)
+					continue
+				}
 				if intr, ok := intrinsics[callee.String()]; ok {
 					bad := false
 					for _, m := range intr.mods {
@@ -1114,7 +1294,7 @@ func (e *Engine) modSetBlocks(st *State, fn *ssa.Function, blocks map[*ssa.Basic
 					}
 					continue
 				}
-				if e.isSkipped(callee) {
+				if e.isSkipped(callee) || pureExternal(callee.String()) {
 					continue
 				}
 				if e.inModule(callee) && callee.Blocks != nil && depth < 4 && !seen[callee] {
@@ -1131,6 +1311,40 @@ func (e *Engine) modSetBlocks(st *State, fn *ssa.Function, blocks map[*ssa.Basic
 		}
 	}
 	return pats, false
+}
+
+// entModset: what a call into generated ent code (or ent's sql builder) may modify: builder methods touch
+// engine-side builder objects only; terminals touch tables, the failure flag and allocate result objects.
+func (e *Engine) entModset(callee *ssa.Function) ([]string, bool) {
+	if e.ent == nil {
+		return nil, false
+	}
+	pkg := callee.Package()
+	if pkg == nil {
+		if o := callee.Origin(); o != nil {
+			pkg = o.Package()
+		}
+	}
+	if pkg == nil {
+		return nil, false
+	}
+	path := pkg.Pkg.Path()
+	if path == "entgo.io/ent/dialect/sql" || strings.HasPrefix(path, e.modPath+"/ent/") {
+		return nil, true
+	}
+	if path != e.modPath+"/ent" {
+		return nil, false
+	}
+	if pos := callee.Pos(); pos.IsValid() && e.fset != nil && strings.HasSuffix(e.fset.Position(pos).Filename, "-addons.go") {
+		return nil, false
+	}
+	switch strings.TrimSuffix(callee.Name(), "X") {
+	case "All", "Only", "First", "IDs", "Count", "Exist", "Scan", "Save", "Exec", "Get", "OnlyID", "FirstID":
+		return []string{"T:*", "S:dbfailed", "CB:*", "F:ent.*", "B:*", "E:*"}, true
+	case "OnCommit", "OnRollback":
+		return []string{"S:wake_on_commit"}, true
+	}
+	return nil, true
 }
 
 // allocatedIn: the address is a cell of an object allocated (by an Alloc instruction) in one of the blocks.
